@@ -277,7 +277,7 @@ def evaluate(run, props):
 # ---------------------------------------------------------------------------------------------
 
 INTERRUPT_KINDS = ('q.get', 'sleep', 'bar.wait', 'ev.wait', 'cv.wait', 'sem.acq', 'lk.acq',
-                   'rl.acq')
+                   'rl.acq', 'thread.join')
 
 
 def interrupt_points(info):
@@ -310,13 +310,16 @@ def all_interrupts(info):
 
 
 def server_pre_open(run):
-    """per kind: number of operations of the server's main thread before its first queue put"""
+    """per kind: number of operations of the server's MAIN thread before the first queue put of
+    the table manager's process (by the main thread itself, or by a thread it started that is not
+    a connection thread -- a tree may run the session on a worker and keep the main thread
+    waiting; the operator's Ctrl-C still lands in the main thread)"""
     pre = {}
     for dec, now, role, kind, obj, detail in run.sim.log:
+        if kind == 'q.put' and (role == 'server' or role.startswith('aux:')):
+            break
         if role != 'server':
             continue
-        if kind == 'q.put':
-            break
         pre[kind] = pre.get(kind, 0) + 1
     return pre
 
